@@ -126,6 +126,13 @@ def source(ctx, i, rng, d):
     k = i % 9
     if k in (0, 1):
         n = gen_ir.generate(rng, profile="edif", ndefs=rng.randint(2, 7), style="mixed" if k else "simple")
+        # user data is arbitrary: property values with characters that have a meaning in the output syntax
+        insts = [c for l in n.libraries for d_ in l.definitions for c in d_.children]
+        for c in rng.sample(insts, min(len(insts), 3)):
+            props = [dict(x) for x in c.get("EDIF.properties", [])] if "EDIF.properties" in c else []
+            props.append({"identifier": "NOTE%d" % len(props), "value": rng.choice(['say "hi"', "100%", "a(b)c", "tab\there", ""])})
+            c["EDIF.properties"] = props
+            ctx.count("instances_with_special_property_values")
         return n, ".edf", "generated API-built"
     if k == 2:
         fs = sorted(glob.glob(os.path.join(common.REPO, "example_netlists", "EDIF_netlists", "*.edf.zip")))
